@@ -59,7 +59,7 @@ def extra_checks(ctx, exes):
                                "what": "the program translated from the AST of this instantiated pointer operator is no longer provably equal to Ptr.ptr_arith / ptr_index_gen for all inputs"})
 DRIVERS = drivers("ARITH", ["arith", "stride"])
 PTEES = {"char": (1, 1), "short": (2, 2), "int": (4, 4), "long": (4, 4), "ulong": (4, 4), "llong": (8, 8), "double": (8, 8),
-         "ptr": (4, 2), "arr4": (16, 16), "larr3": (12, 12), "ps": (32, 32)}   # guest stride under (cfg32, cfg16)
+         "ptr": (4, 2), "arr4": (16, 16), "larr3": (12, 12), "llarr3": (24, 24), "ullarr2x2": (32, 32), "sarr5": (10, 10), "ps": (32, 32)}   # guest stride under (cfg32, cfg16)
 
 
 def gen_cases(tier, rng):
